@@ -63,6 +63,19 @@ SAFE = {
     'core::num::<impl u64>::to_be_bytes': 'pure', 'core::num::<impl u16>::to_be_bytes': 'pure', 'core::num::<impl u32>::to_be_bytes': 'pure',
     'core::num::<impl usize>::to_be_bytes': 'pure', 'core::cmp::min': 'pure', 'core::cmp::max': 'pure', 'core::cmp::Ord::min': 'pure', 'core::cmp::Ord::max': 'pure',
     'core::num::<impl usize>::saturating_sub': 'pure', 'core::num::<impl usize>::checked_add': 'pure', 'core::num::<impl usize>::wrapping_sub': 'pure',
+    'core::option::Option::is_none': 'inspection', 'core::option::Option::is_some': 'inspection', 'core::option::Option::ok_or_else': 'combinator',
+    'core::option::Option::and_then': 'combinator', 'core::option::Option::unwrap_or': 'total', 'core::option::Option::unwrap_or_default': 'total',
+    'core::result::Result::ok': 'combinator', 'core::result::Result::map': 'combinator', 'core::result::Result::and_then': 'combinator',
+    'core::result::Result::unwrap_or': 'total', 'core::result::Result::is_ok_and': 'inspection',
+    'core::vec::Vec::new': 'empty vector (no allocation)', 'core::slice::<impl [T]>::first': 'returns Option', 'core::slice::<impl [T]>::last': 'returns Option',
+    'core::slice::<impl [T]>::get': 'returns Option', 'core::slice::<impl [T]>::split_first': 'returns Option', 'core::slice::<impl [T]>::split_last': 'returns Option',
+    'core::slice::<impl [T]>::split_at_checked': 'returns Option', 'core::slice::<impl [T]>::iter_mut': 'iterator construction',
+    'core::num::<impl u64>::wrapping_add': 'pure', 'core::num::<impl u64>::saturating_add': 'pure', 'core::num::<impl u64>::checked_sub': 'pure',
+    'core::num::<impl u64>::to_le_bytes': 'pure', 'core::mem::take': 'pure', 'core::mem::replace': 'pure', 'core::mem::swap': 'pure',
+    'core::convert::AsRef::as_ref': 'view', 'core::convert::AsMut::as_mut': 'view', 'core::borrow::Borrow::borrow': 'view',
+    'core::cmp::PartialEq::ne': 'comparison', 'core::cmp::PartialOrd::lt': 'comparison', 'core::cmp::PartialOrd::le': 'comparison',
+    'core::cmp::PartialOrd::gt': 'comparison', 'core::cmp::PartialOrd::ge': 'comparison', 'core::ops::Not::not': 'pure',
+    'core::ops::BitAnd::bitand': 'pure', 'core::ops::BitOr::bitor': 'pure', 'core::ops::Drop::drop': 'destructor',
     'core::convert::Into::into': None,     # decided per call (target type), see classify()
 }
 PANICKY_NAMES = {'unwrap', 'expect', 'copy_from_slice', 'split_at', 'index', 'index_mut', 'panic_fmt', 'assert_failed', 'to_vec', 'from_elem',
